@@ -23,3 +23,7 @@ reg("C17", "exploration",
     "Metamorphic testing: corpus fonts x seeded glyph-order permutations (ttLib.reorderGlyphs) and x new units-per-em values (ttLib.scaleUpem), observed through HarfBuzz before/after keyed by glyph name: outlines, advances, cmap, shaping of texts and lookup-biased glyph runs at default and variation locations; reorder must be exact, scaling must multiply every number by k within a data-derived rounding budget and leave unit-less tables byte-identical.",
     "HarfBuzz as observer; scale budget formula in evidence assumptions; VARC fonts excluded from the scale relation; offsets compared only when they come from GPOS (HarfBuzz fallback mark positioning is not font data).",
     "metamorphic relation checked with an independent shaper over corpus x generated permutations/scale factors", "DESIGN.md section 2 C17")
+reg("C18", "exploration",
+    "Generated merge inputs (seeded character-set partitions of corpus fonts, compatible corpus tuples, FontBuilder-generated TrueType/CFF fonts with name clashes, duplicate code points and generated kerning/ligatures) merged with fontTools.merge and observed through HarfBuzz: every character keeps the outline and advance of the first input mapping it, glyph names are unique, and for disjoint character sets each input's texts shape to the same (outline, advance, offset) sequence in the merged font.",
+    "HarfBuzz as observer; inputs constructed to satisfy the merger's documented restrictions (equal upem, same flavour, static, GSUB present when duplicates must be disambiguated, identical non-layout table sets for corpus tuples).",
+    "metamorphic / differential testing through an independent shaper over generated input tuples", "DESIGN.md section 2 C18")
